@@ -359,9 +359,10 @@ class ModelRegistry:
             it.assign(g.target, lower(base.at(k), st), sub)
             return it.eval(e.elt, sub)
 
-        cond_v = it.eval_merged(body_cond, 'bool')
+        in_range = z3.And(k >= 0, k < base.len)
+        cond_v = it.eval_merged(body_cond, 'bool', assuming=in_range)
         kept = list(getattr(it, 'last_merged_assumptions', []))
-        elt_v = it.eval_merged(body_elt, 'val')
+        elt_v = it.eval_merged(body_elt, 'val', assuming=in_range)
         kept += list(getattr(it, 'last_merged_assumptions', []))
         from z3 import z3util
         for f in kept:
@@ -397,6 +398,11 @@ class ModelRegistry:
                                              z3.And(dst(kk) >= 0, dst(kk) < out.len, src(dst(kk)) == kk,
                                                     out.at(dst(kk)) == elt_f(kk))),
                             patterns=[base.at(kk)]))
+        if not g.ifs:
+            # no filter: the result is the element-wise image of the sequence
+            st.assume(out.len == base.len)
+            st.assume(FA([j], z3.Implies(z3.And(j >= 0, j < out.len), z3.And(src(j) == j, out.at(j) == elt_f(j))),
+                         patterns=[out.at(j)]))
         res = it.new_list(out)
         it.st.ghost.setdefault('comp', {})[res.id] = dict(base=base, out=out, src=src, dst=dst, cond=cond_f, elt=elt_f)
         return res
